@@ -31,16 +31,23 @@ CFG = dict(
            "transformed variants: dynamic x/y/xy step view lists, colour-converted view lists (gray8, rgb8, rgba8, gray16 + user converter)"],
     assumptions=["the concrete call is the oracle (the property's own wording); its correctness is C02/C04's",
                  "compatibility classes written by hand: {gray8}, {gray16}, {rgb8, rgb8 planar, bgr8}, {rgba8}",
-                 "binary algorithms are given views of equal dimensions (their precondition)",
+                 "compatible pairs of copy_pixels / copy_and_convert_pixels / equal_pixels are given views of equal dimensions (their precondition); "
+                 "incompatible pairs (must throw) and resample_pixels (no such precondition) are also run with differing widths and/or heights",
+                 "caller-supplied objects carry run-time state: converter (offset + call counter) in every form of copy_and_convert_pixels and in "
+                 "color_converted_view, sampler (shift + call counter) and seeded matrix in every form of resample_pixels, for_each_pixel functor (multiplier, start count)",
                  "equal_pixels / operator== include the planar alternative (F2 fixed in /repo); -DC14_EQ_WITHOUT_PLANAR restores the reduced list",
                  "nth_channel_view / transposed_view of a variant (parts 8, 9) did not instantiate before the fix: commits in /repo"],
     tus=[tu("c14_asan%d" % k, SRC, "asan", extra=X + ["-DC14_PART=%d" % k]) for k in range(NPARTS)]
         # parts 8 (transposed_view) and 9 (nth_channel_view) of a variant did not instantiate on the pinned
         # tree (reported as uninstantiable probes); since the fix: commits 6dacda3 / db95fec they are ordinary runs
         + [tu("c14_asan8", SRC, "asan", extra=X + ["-DC14_PART=8"]),
-           tu("c14_asan9", SRC, "asan", extra=X + ["-DC14_PART=9"])],
+           tu("c14_asan9", SRC, "asan", extra=X + ["-DC14_PART=9"]),
+           # copy_and_convert_pixels with a stateful user converter, any/concrete and concrete/any forms
+           tu("c14_asan10", SRC, "asan", extra=X + ["-DC14_PART=10"])],
     runs=[run("c14_asan%d" % k, shards={"quick": 2, "thorough": 6}, min_cases={"quick": CASES[k], "thorough": CASES[k]}) for k in range(NPARTS)]
         + [run("c14_asan8", shards=2, min_cases={"quick": 6, "thorough": 6}),
-           run("c14_asan9", shards=2, min_cases={"quick": 6, "thorough": 6})],
-    require_obs=["binary.compatible", "binary.bad_cast", "binary.converted", "equal.compatible", "equal.bad_cast", "fill.compatible", "fill.bad_cast"],
+           run("c14_asan9", shards=2, min_cases={"quick": 6, "thorough": 6}),
+           run("c14_asan10", shards={"quick": 2, "thorough": 6}, min_cases={"quick": 72, "thorough": 72})],
+    require_obs=["binary.compatible", "binary.bad_cast", "binary.converted", "equal.compatible", "equal.bad_cast", "fill.compatible", "fill.bad_cast",
+                 "binary.shapes-differ.bad_cast", "binary.shapes-differ.ok", "equal.shapes-differ.bad_cast"],
 )
